@@ -31,6 +31,8 @@ func main() {
 		os.Exit(cmdConc(args))
 	case "measure":
 		os.Exit(cmdMeasure(args))
+	case "longoffsets":
+		os.Exit(cmdLongOffsets(args))
 	case "extremes":
 		os.Exit(cmdExtremes(args))
 	case "run1":
